@@ -37,6 +37,11 @@ type Conn struct {
 	Reads    int // number of Read calls that returned data
 	// WriteErrAfter: if >=0, writes fail once this many bytes have been accepted.
 	WriteErrAfter int
+	// TimeoutAfterBytes: if >0, the read that would go past this many delivered input bytes
+	// stops there, and the next read returns a timeout error — once; later reads go on
+	// (a peer that stalls past the read timeout in mid-message and then resumes).
+	TimeoutAfterBytes int
+	timeoutFired      bool
 	// OnRead, if set, is called (outside the lock) before each Read is served with
 	// the number of input bytes delivered so far.
 	OnRead                          func(delivered int)
@@ -96,6 +101,16 @@ func (c *Conn) Read(p []byte) (int, error) {
 			return 0, net.ErrClosed
 		}
 		return 0, io.EOF
+	}
+	if c.TimeoutAfterBytes > 0 && !c.timeoutFired {
+		if c.delivered == c.TimeoutAfterBytes {
+			c.timeoutFired = true
+			c.mu.Unlock()
+			return 0, timeoutErr{}
+		}
+		if room := c.TimeoutAfterBytes - c.delivered; room > 0 && len(p) > room {
+			p = p[:room]
+		}
 	}
 	f := c.frags[0]
 	n := copy(p, f)
